@@ -320,14 +320,14 @@ Section CtlProofs.
     (forall x, ss_sid (f x) = ss_sid x) ->
     ctl_find t' (ctl_update t f l) = if t' =? t then option_map f (ctl_find t l) else ctl_find t' l.
   Proof.
-    intros Hf. induction l as [|x r IH]; cbn; [destruct (t' =? t); reflexivity|].
+    intros Hf. unfold ctl_update. induction l as [|x r IH]; cbn; [destruct (t' =? t); reflexivity|].
     destruct (ss_sid x =? t) eqn:E.
     - rewrite Hf. destruct (t' =? t) eqn:E2.
       + assert (ss_sid x =? t' = true) as -> by lia. reflexivity.
-      + assert (ss_sid x =? t' = false) as -> by lia. rewrite IH, E2. reflexivity.
+      + assert (ss_sid x =? t' = false) as -> by lia. exact IH.
     - destruct (t' =? t) eqn:E2.
-      + assert (ss_sid x =? t' = false) as -> by lia. rewrite IH, E2. reflexivity.
-      + destruct (ss_sid x =? t'); [reflexivity|]. rewrite IH, E2. reflexivity.
+      + assert (ss_sid x =? t' = false) as -> by lia. exact IH.
+      + destruct (ss_sid x =? t'); [reflexivity|]. exact IH.
   Qed.
 
   Lemma ctl_find_snoc t l s :
@@ -362,7 +362,7 @@ Section CtlProofs.
   Proof.
     intros Hinv Hc H. pose proof Hinv as [H1 [H2 [H3 H4]]]. destruct e; cbn in H.
     - destruct (ctl_find_cfg name (st_cfgs st)); injection H as <- <-; intros role t; rewrite ctl_cnt_app; cbn; rewrite Z.add_0_r; apply Hc.
-    - injection H as <- <-. now apply ctl_counts_same_sess.
+    - injection H as <- <-. (apply (ctl_counts_same_sess st); [assumption|reflexivity]).
     - (* Visitor *)
       destruct (ctl_session_only_if_signed_and_live st vm tr user st' o H)
         as [[E [e [-> _]]]|(cfg & s & _ & _ & _ & _ & _ & E & Hsid & _ & _ & _ & Ht & Hp & ->)].
@@ -382,9 +382,9 @@ Section CtlProofs.
       injection H as <- <-. apply (ctl_counts_update st outs t s); try assumption; try reflexivity.
       intros role; cbn. rewrite Ep. destruct role; reflexivity.
     - (* Client *)
-      destruct (ctl_parse_sid (cm_sid cm)) as [t|]; [|injection H as <- <-; now apply ctl_counts_same_sess].
-      unfold ctl_lookup in H. destruct (ctl_find t (st_sess st)) as [s|] eqn:Ef; [|injection H as <- <-; now apply ctl_counts_same_sess].
-      destruct (ss_in_table s); injection H as <- <-; [|now apply ctl_counts_same_sess].
+      destruct (ctl_parse_sid (cm_sid cm)) as [t|]; [|injection H as <- <-; (apply (ctl_counts_same_sess st); [assumption|reflexivity])].
+      unfold ctl_lookup in H. destruct (ctl_find t (st_sess st)) as [s|] eqn:Ef; [|injection H as <- <-; (apply (ctl_counts_same_sess st); [assumption|reflexivity])].
+      destruct (ss_in_table s); injection H as <- <-; [|(apply (ctl_counts_same_sess st); [assumption|reflexivity])].
       apply (ctl_counts_update st outs t s); try assumption; try reflexivity. intros role; cbn. lia.
     - (* Wake *)
       destruct (ctl_find t (st_sess st)) as [s|] eqn:Ef; [|discriminate].
@@ -399,7 +399,7 @@ Section CtlProofs.
     - (* Analyse *)
       destruct (ctl_find t (st_sess st)) as [s|] eqn:Ef; [|discriminate].
       destruct (ss_pc s) eqn:Ep; try discriminate. destruct (ss_client s) as [[cm ctr]|] eqn:Ec; [|discriminate].
-      destruct (nh_analysis D (st_an st) (ctl_sid_bytes t) (ss_vmsg s) cm); try discriminate; injection H as <- <-;
+      match type of H with match ?x with _ => _ end = _ => destruct x end; try discriminate; injection H as <- <-;
         apply (ctl_counts_update st outs t s); try assumption; try reflexivity;
         intros role; cbn; rewrite Ep; destruct role; reflexivity.
     - (* SendV *)
@@ -421,10 +421,10 @@ Section CtlProofs.
       injection H as <- <-. apply (ctl_counts_update st outs t s); try assumption; try reflexivity.
       intros role; cbn. rewrite Ep. destruct role; reflexivity.
     - (* Report *)
-      destruct (ctl_parse_sid sid) as [t|]; [|injection H as <- <-; now apply ctl_counts_same_sess].
-      destruct (ctl_lookup t (st_sess st)) as [s|]; [|injection H as <- <-; now apply ctl_counts_same_sess].
-      destruct success; [|injection H as <- <-; now apply ctl_counts_same_sess].
-      destruct (ss_reco s) as [[[k m] i]|]; injection H as <- <-; now apply ctl_counts_same_sess.
+      destruct (ctl_parse_sid sid) as [t|]; [|injection H as <- <-; (apply (ctl_counts_same_sess st); [assumption|reflexivity])].
+      destruct (ctl_lookup t (st_sess st)) as [s|]; [|injection H as <- <-; (apply (ctl_counts_same_sess st); [assumption|reflexivity])].
+      destruct success; [|injection H as <- <-; (apply (ctl_counts_same_sess st); [assumption|reflexivity])].
+      destruct (ss_reco s) as [[[k m] i]|]; injection H as <- <-; (apply (ctl_counts_same_sess st); [assumption|reflexivity]).
   Qed.
 
   Lemma ctl_run_counts evs : forall st acc,
